@@ -245,9 +245,11 @@ def make_tebd(pre_steps, initial=None, start_step=0):
         rho_b = np.array([[0.4, 0.2j], [-0.2j, 0.6]], dtype=complex)
         initial = oqupy.AugmentedMPS([rho_a, rho_b])
     params = oqupy.PtTebdParameters(dt=DT, order=2, epsrel=1e-13)
-    return oqupy.PtTebd(initial, chain, [None, None], params, chain_control=ctrl,
-                        start_time=START + DT * start_step, start_step=int(start_step),
-                        dynamics_sites=[0, 1, (0, 1)])
+    t = oqupy.PtTebd(initial, chain, [None, None], params, chain_control=ctrl,
+                     start_time=START + DT * start_step, start_step=int(start_step),
+                     dynamics_sites=[0, 1, (0, 1)])
+    t._verif_ctrl = ctrl        # the caller's ChainControl object (for controls scheduled between two compute calls)
+    return t
 
 
 def observe_tebd(obj):
@@ -272,13 +274,20 @@ def replay_tebd(case):
     ref = make_tebd(pre)
     ref.compute(n_max, progress_type="silent")
     rt, rn, rs = observe_tebd(ref)
-    obj = make_tebd(pre)
+    # "late": the caller schedules each pre-measurement control only just before the compute call that reaches its step
+    # (on the same ChainControl object, between two calls)
+    late = bool(case.get("late"))
+    obj = make_tebd([] if late else pre)
+    pending = list(pre) if late else []
     origin = 0
     out = []
     for idx, h in enumerate(case["hist"]):
         raised = False
         try:
             if h["op"] == "compute":
+                for k in [k for k in pending if k <= h["target"]]:
+                    obj._verif_ctrl.add_single_site_control(PRIMES[k] * np.eye(4), site=k % 2, step=int(k), post=False)
+                    pending.remove(k)
                 obj.compute(h["target"], progress_type="silent")
             elif h["op"] == "peek":
                 dm = obj.get_current_density_matrix((0, 1))
@@ -289,6 +298,7 @@ def replay_tebd(case):
                 mps = obj.get_augmented_mps()
                 origin = obj.step
                 obj = make_tebd(pre, initial=mps, start_step=origin)
+                pending = []
         except Exception as ex:  # pylint: disable=broad-except
             out.append({"what": "unexpected-exception", "call": idx, "detail": "%s: %s" % (type(ex).__name__, ex)})
             return out
@@ -546,13 +556,17 @@ def run(ctx):
                 # state at any point (not only at the end: a later restart hides it again)
                 if not c["canonical"] or any(not h["canon"] for h in c["hist"]):
                     trigger[hist_key(c)] = c
-        for c in strict.cases:
+        for ci, c in enumerate(strict.cases):
             all_jobs.append((c, known_dev if hist_key(c) in trigger else None))
+            if kind == "tebd" and c["pre"] and ci % 2 == 0 and sum(1 for h in c["hist"] if h["op"] == "compute") >= 2:
+                all_jobs.append((dict(c, late=True), known_dev if hist_key(c) in trigger else None))
     res = core.pmap(replay_case, [j[0] for j in all_jobs], chunksize=4)
     ntrig = 0
     for (case, dev), mm in zip(all_jobs, res):
         cid = {"kind": case["kind"], "fail": case["fail"], "pre": case["pre"],
                "calls": [[h["op"], h["target"]] for h in case["hist"]]}
+        if case.get("late"):
+            cid["controls_scheduled_between_calls"] = True
         nontrivial = any(h["op"] in ("compute", "restart") for h in case["hist"])
         ctx.case(cid, nontrivial=nontrivial)
         if dev:
